@@ -49,7 +49,7 @@ PROPS["C12"] = dict(
     level_text="Generated value trees over every RESP3/RESP2 type and encoding variant, decoded under generated read splits and buffer sizes and compared with the generated tree; streaming reads compared with what a normal read returns. Sampled, deep (thousands to millions of trees).",
     level_note="The harness encoder (kit/resp) is trusted to produce well-formed RESP; it is itself round-trip tested against its own decoder. " + LIMITS,
     units=[
-        U("inpkg", "rueidis", "TestVerif_C12_Decode", T(8000), T(100000, shards=16)),
+        U("inpkg", "rueidis", "TestVerif_C12_Decode", T(8000), T(100000, shards=16), fuzz=[dict(target="FuzzVerif_C13_Decode", seconds=240)]),
         U("inpkg", "rueidis", "TestVerif_C12_Stream", T(8000), T(100000, shards=16)),
     ],
 )
@@ -60,7 +60,7 @@ PROPS["C13"] = dict(
     level_text="Generated and mutated byte strings decoded by both decoders (normal and streaming) under an allocation budget proportional to the input; a process crash (fatal out-of-memory) is reported as a violation with the saved input.",
     level_note="Allocation is measured as TotalAlloc delta of the single-threaded test and compared with 64x input length + 1 MiB; " + LIMITS,
     units=[
-        U("inpkg", "rueidis", "TestVerif_C13_Malformed", T(20000), T(200000, shards=16), crash_is_violation=True, mem_gb=4),
+        U("inpkg", "rueidis", "TestVerif_C13_Malformed", T(20000), T(200000, shards=16), crash_is_violation=True, mem_gb=4, fuzz=[dict(target="FuzzVerif_C13_Decode", seconds=300)]),
     ],
 )
 
@@ -81,7 +81,7 @@ PROPS["C17"] = dict(
     level_text="Generated trees and expiries round-tripped through CacheMarshal/CacheUnmarshalView with size and cache-hit checks; every truncation point of each case is tried (exhaustive per case up to 600 bytes).",
     level_note="Trees are built directly as RedisMessage values the way the decoder builds them. " + LIMITS,
     units=[
-        U("inpkg", "rueidis", "TestVerif_C17_CacheRoundTrip", T(4000), T(40000, shards=16)),
+        U("inpkg", "rueidis", "TestVerif_C17_CacheRoundTrip", T(4000), T(40000, shards=16), fuzz=[dict(target="FuzzVerif_C17_Cache", seconds=180)]),
     ],
 )
 
@@ -102,7 +102,7 @@ PROPS["C15"] = dict(
     level_note="Wrong-shape => parse error is asserted only for the unambiguous accessor x type matrix in c15_test.go; structured helpers on a wrong shape may return an error or a well-formed value. " + LIMITS,
     units=[
         U("inpkg", "rueidis", "TestVerif_C15_ErrorClassifiers", T(5000), T(100000, shards=4)),
-        U("inpkg", "rueidis", "TestVerif_C15_Accessors", T(6000), T(60000, shards=16)),
+        U("inpkg", "rueidis", "TestVerif_C15_Accessors", T(6000), T(60000, shards=16), fuzz=[dict(target="FuzzVerif_C15_Accessors", seconds=300)]),
     ],
 )
 
@@ -397,6 +397,14 @@ PROPS["C25"] = dict(
     level_text="1-3 dedicated sessions (Dedicated(fn) or Dedicate(); WATCH/GET/MULTI/SET/EXEC through Do and DoMulti, SetPubSubHooks with SUBSCRIBE/PSUBSCRIBE/SSUBSCRIBE, Receive, SetOnInvalidations with CLIENT TRACKING; synchronous and pipelined connection modes; released, closed or closed twice; optionally leaving a transaction open) run with generated pauses while other callers use the shared pipeline and the blocking pool (BlockingPoolSize 1-3), keys are modified and messages published from outside, and the released handles are called again. Each session's commands must be one contiguous block on one pool connection, every reply must be the one a reference model derives from the server's execution order (EXEC aborts only for the session's own WATCH), a released handle must reject every call and reach no connection, and the connection must be handed on without subscriptions, hooks, tracking or transaction state.",
     level_note="RESP3 single client only (RESP2 Pub/Sub uses a second connection). Four recorded defects bound what is judged: state of an abandoned WATCH/MULTI survives release (C25.abandoned-tx-leaks), the clean-up after an abandoned MULTI panics on a pipelined connection (C25.abandoned-multi-panics, such plans are not generated while on record), Close on a released handle closes the connection under its next user (C25.close-after-release), SetPubSubHooks after SetOnInvalidations leaves tracking on (C25.sethooks-drops-oninvalidations). Delivery of messages while subscribed is not asserted, only that nothing arrives after release. " + LIMITS,
     units=[U("harness", "props", "TestVerif_C25_Dedicated", T(1200, timeout=300), T(4000, shards=16, timeout=1500), variants=QUEUES)],
+)
+
+PROPS["C47"] = dict(
+    level="fault_enumeration",
+    technique="property-based testing (rapid) over option vectors and server personalities in a testing/synctest bubble, with an exhaustive enumeration of the failing setup step per vector (one run per setup command seen in the fault-free run, that command answered by an error on every new connection); oracle = session state of the fake server captured right before each connection's first user command, compared with the configuration",
+    level_text="Generated vectors over credentials (static, password only, AuthCredentialsFn with rotating users), ClientName, SelectDB, ClientTrackingOptions (OPTIN/OPTOUT/BCAST/PREFIX/NOLOOP), DisableCache, AlwaysRESP2, ClientNoTouch, ClientNoEvict, ClientSetInfo (default/custom/disabled), Standalone.EnableRedirect and ReplicaOnly against a RESP3 server, a server without HELLO and a server that answers HELLO 3 with protocol 2. One user command goes through the pipelining connection, the blocking pool, a dedicated client and the stream pool; each connection's authenticated user, name, database, tracking mode/prefixes/NOLOOP, NO-TOUCH, NO-EVICT, READONLY, CAPA, library info and protocol must equal the configuration before its first user command. For every vector every setup command is then failed in turn: READONLY and CLIENT SETINFO failures must be tolerated, every other failure must fail NewClient and every call with no user command executed.",
+    level_note="The fake derives session state semantically, so command order does not matter. ReplicaOnly is rejected for single clients and is therefore only exercised together with Standalone.EnableRedirect (standalone client). A rejected HELLO with a text other than 'unknown command' may either fall back or fail; a step that is sent again later on the same connection (RESP2 fallback) may be tolerated. With a server without HELLO that requires AUTH, ClientNoTouch/ClientNoEvict/EnableRedirect make the connection fail (CLIENT ... is sent before AUTH in the RESP3 attempt): accepted as a failed connection, not asserted. Cluster and sentinel handshakes are not covered here. " + LIMITS,
+    units=[U("harness", "props", "TestVerif_C47_Setup", T(600, timeout=300), T(3000, shards=16, timeout=1500), variants=QUEUES)],
 )
 
 # ---- END PROPS (new entries go above this line)
